@@ -584,8 +584,6 @@ def hex_atoms(vm, o):
         if isinstance(x, int):
             out.extend(('%02x' % x).encode())
             continue
-        if x.sort == z3.BV:
-            x = z3.BV2Int(x)
         out.extend([z3.HexDigit(x, True), z3.HexDigit(x, False)])
     return out
 
